@@ -316,14 +316,26 @@ func (p *PathCtx) Concretize(t *Term) uint64 {
 			return t.C
 		}
 		if n > 100000 {
-			panic(pathEnd{"budget", "concretize: too many values"})
+			eqd := p.T.Cmp(OpEq, t, p.T.Const(t.W, p.evalU(t)))
+			kv, kok := p.known[eqd]
+			panic(pathEnd{"budget", "concretize: too many values for " + t.String() + fmt.Sprintf(" (last value tried %d; W=%d; eq=%s const=%v known=%v/%v; dec=%d prefix=%d concrete=%v model=%s)", p.evalU(t), t.W, eqd.String(), eqd.IsConst(), kv, kok, len(p.dec), len(p.prefix), p.concrete, modelString(p.model))})
+		}
+		// If the path condition already pins t to one value (an earlier identical concretisation), every
+		// model gives that value and no decision is consumed -- neither here nor when an ancestor ran this.
+		vm := p.evalU(t)
+		eqm := p.T.Cmp(OpEq, t, p.T.Const(t.W, vm))
+		if eqm.IsConst() && eqm.C == 1 {
+			return vm
+		}
+		if kv, ok := p.known[eqm]; ok && kv {
+			return vm
 		}
 		var v uint64
 		i := len(p.dec)
 		if !p.concrete && i < len(p.prefix) && p.prefix[i].IsVal {
 			v = p.prefix[i].Val
 		} else {
-			v = p.evalU(t)
+			v = vm
 		}
 		c := p.T.Const(t.W, v)
 		eq := p.T.Cmp(OpEq, t, c)
